@@ -25,7 +25,7 @@ RULE = ("pipelines {two mapped functions + reduction, 2-D map -> partial reducti
         "product, internal-axis-first -> reduction; plus (single executor, B=1, sequential/thread real pools only) a map whose every element is None -> element-wise consumer; custom picker / 1-tuple / list-valued reducers; a pipeline under a scope s with two functions without MapSpec side by side} x storage {file_array, dict, shared_memory_dict, per-output mixes} x executor assignment {one, per-output "
         "dict, default-only dict, partial dict} x {map, map_async}; for each configuration every schedule with <= B deviations (deviation = not letting the "
         "caller continue after a submit / not running the oldest pending task when one must run). Task-splitting: the tasks of a generation as logical threads preempted (<= B times) at user-function entry / argument selection / storage dump; storage-lines: the same with a preemption point at EVERY source line of pipefunc/map/_storage_array/ executed by a task, and map-lines: at every source line of the whole pipefunc/map/ package (quick: file_array for three pipelines, dict for two; thorough: all pipelines x all three storages), where every departure from the default successor thread counts as a deviation (file_array, dict; thorough also shared_memory_dict, and B=2 for dict storage and two file_array pipelines). Plus the same configurations on real Thread/Process pools "
-        "(one free-running schedule each, not claimed as schedule coverage)")
+        "(one free-running schedule each, not claimed as schedule coverage; incl. a pre-started process pool whose workers live in another working directory, with a relative run folder)")
 ASSUMPTIONS = ["a submitted task is atomic in the deferred executor; in task-splitting mode tasks are logical threads with scheduling points at user-function entry and storage dump only; in storage-lines / map-lines mode additionally at every source line executed inside pipefunc/map/_storage_array/ resp. pipefunc/map/ (a line is atomic)", "reference = MapSpec denotation of vmc/gen_map.py",
                "real pools contribute one OS-chosen schedule per configuration"]
 BUDGET = {"quick": 150.0, "thorough": 2400.0}
@@ -350,6 +350,7 @@ def run_real(cfg):
     terms.LOG_FILE = logf
     obs = {"status": "ok"}
     pool = None
+    old_cwd = os.getcwd()
     try:
         delay = cfg.get("delay")
         counter = {}
@@ -368,6 +369,18 @@ def run_real(cfg):
         elif kind == "process":
             import multiprocessing
             pool = cf.ProcessPoolExecutor(2, mp_context=multiprocessing.get_context("fork"))
+        elif kind == "process-prestarted-chdir":
+            # a long-lived pool whose workers were started in ANOTHER working directory than the one the map is made from, and a
+            # RELATIVE run folder: every process has to mean the same folder by it
+            import multiprocessing
+            import time as _t
+            os.makedirs(os.path.join(folder, "a"))
+            os.makedirs(os.path.join(folder, "b"))
+            os.chdir(os.path.join(folder, "a"))
+            pool = cf.ProcessPoolExecutor(2, mp_context=multiprocessing.get_context("fork"))
+            list(pool.map(_t.sleep, [0.05, 0.05, 0.05]))  # both workers exist now
+            os.chdir(os.path.join(folder, "b"))
+            run = "run"
         kw = dict(run_folder=run, internal_shapes=gen_map.internal_shapes_arg(spec), storage=storage_arg(cfg["storage"]))
         try:
             with contextlib.redirect_stdout(io.StringIO()), warnings.catch_warnings():
@@ -403,6 +416,7 @@ def run_real(cfg):
         terms.LOG_FILE = None
         if pool is not None:
             pool.shutdown(wait=True)
+        os.chdir(old_cwd)
         shutil.rmtree(folder, ignore_errors=True)
 
 
@@ -443,6 +457,8 @@ def real_configs(tier):
                 if pool in ("process", "default-pool") and st == "dict" or (isinstance(st, dict) and "dict" in st.values() and pool in ("process", "default-pool")):
                     continue  # plain dict storage cannot cross a process boundary (pipefunc rejects it)
                 out.append({"pipe": pipe, "storage": st, "pool": pool})
+                if pool == "thread" and st in ("file_array", "shared_memory_dict") and pipe in ("two-maps-reduce", "tuple-zip"):
+                    out.append({"pipe": pipe, "storage": st, "pool": "process-prestarted-chdir"})
                 if pool in ("thread", "process") and isinstance(st, str) and pipe not in EXTRA:
                     for delay in ("first-slow", "later-slow"):
                         out.append({"pipe": pipe, "storage": st, "pool": pool, "delay": delay})
@@ -484,7 +500,7 @@ def plan(tier, seed):
                                        (st == "dict" and pipe in ("two-maps-reduce", "generator-outer"))
                         if (which == "map-lines") != in_map_lines:
                             continue
-                    ns = (4 if (st != "dict" or which == "map-lines") else 1) * (1 if b == 1 else 16)
+                    ns = (8 if which == "map-lines" else (4 if st != "dict" else 1)) * (1 if b == 1 else 16)
                     for k in range(ns):
                         units.append((f"{which.replace('-small', '')}-preemptions<={b}", ("dfs", {"pipe": pipe, "storage": st, "exec": mode, "entry": "sync"}, b, (k, ns))))
             continue
